@@ -1,23 +1,33 @@
 """C13 - cookie values round-trip and cannot inject attributes.
 
 All tables are folded from the source (E3/E4) and compared, exhaustively over
-the 256 byte values, with the RFC 6265 section 4.1.1 cookie-octet table.
+the 256 byte values, with the RFC 6265 section 4.1.1 cookie-octet table.  The
+code that applies the tables is located by role (the regex substitution over
+the encoded value, the fast-path match on the value, the unescaping substitution
+over the quoted value), following one level of module-level helpers, and its
+conditions are read through canonical guards - so extracted helpers, renamed
+locals, flipped branches and equivalent stdlib idioms are read the same way.
 """
 
 from __future__ import annotations
 
 import ast
+import re
 
 from .. import astq
-from ..fold import Folder, RegexConst, Unfoldable, classes_in, matches_const, single_class
-from ..loader import AnalysisError, dotted, norm
+from ..cfg import cfg_of
+from ..dataflow import ReachingDefs
+from ..fold import Folder, RegexConst, Unfoldable, single_class
+from ..guards import canon, guard_set, simulate
+from ..loader import AnalysisError, FuncInfo, dotted, norm, walk_no_nested
 from ..report import Ctx
 
 LEVEL_TEXT = (
     "Static decision of the structural clauses of C13 on /repo's current source: (R13.1) the escape class used by "
     "dump_cookie contains every byte that is not an RFC 6265 cookie-octet; (R13.2) the escape map is total over that "
-    "class, pure ASCII, backslash + octal/self, and is inverted by the parser's unslash regex and replacement function; "
-    "(R13.3) the unquoted fast path admits only cookie-octets (fullmatch, re.ASCII); (R13.4) escaped text is decoded as "
+    "class, pure ASCII, backslash + octal/self, and is inverted by the parser's unslash regex and replacement function, "
+    "which is applied in a single pass to quoted values only and whose result is stored untransformed; (R13.3) the "
+    "unquoted fast path admits only cookie-octets (fullmatch, re.ASCII); (R13.4) escaped text is decoded as "
     "ASCII and wrapped in quotes; (R13.5) attribute names and order are literal, SameSite is validated, path and domain "
     "pass their encoders, partitioned implies secure; (R13.6) both request-side parsers reach the sans-io parser and "
     "Response.set_cookie forwards every attribute. Exhaustive over the 256 byte values; it decides these clauses, not "
@@ -31,7 +41,47 @@ COOKIE_OCTETS = frozenset([0x21, *range(0x23, 0x2C), *range(0x2D, 0x3B), *range(
 ATTR_ORDER = ["Domain", "Expires", "Max-Age", "Secure", "HttpOnly", "Path", "SameSite", "Partitioned"]
 
 
-def _fold_name_expr(ctx: Ctx, folder: Folder, fi, expr: ast.AST):
+# ---------------------------------------------------------------------
+# small dataflow helpers
+
+
+class Fn:
+    def __init__(self, fi: FuncInfo):
+        self.fi = fi
+        self.cfg = cfg_of(fi)
+        self.rd = ReachingDefs(self.cfg, fi.params)
+
+    def expand(self, e: ast.AST, at: ast.AST | None = None, depth: int = 0, levels: int = 5) -> ast.AST:
+        """substitute local names by their unique reaching definition (any expression), recursively."""
+        node = self.cfg.node_of(at if at is not None else e)
+        fresh = ast.parse(ast.unparse(e), mode="eval").body
+        if node is None or depth >= levels:
+            return fresh
+        outer = self
+
+        class T(ast.NodeTransformer):
+            def visit_Name(self, n: ast.Name):  # noqa: N802
+                if isinstance(n.ctx, ast.Load):
+                    defs = outer.rd.reaching(node, n.id)
+                    if len(defs) == 1:
+                        d = next(iter(defs))
+                        if d.kind == "assign" and d.index is None and d.value is not None and d.stmt is not None:
+                            return outer.expand(d.value, d.stmt, depth + 1, levels)
+                return n
+
+        return ast.fix_missing_locations(T().visit(fresh))
+
+
+def _module_helpers(fi: FuncInfo) -> list[FuncInfo]:
+    out = []
+    for c in astq.calls(fi.node):
+        d = dotted(c.func)
+        if d and d in fi.module.functions and fi.module.functions[d] is not fi and fi.module.functions[d] not in out:
+            out.append(fi.module.functions[d])
+    return out
+
+
+def _fold(ctx: Ctx, folder: Folder, fi: FuncInfo, expr: ast.AST):
     d = dotted(expr)
     if d is None:
         raise AnalysisError(f"{fi.fq}: cannot resolve {ast.unparse(expr)}")
@@ -41,6 +91,29 @@ def _fold_name_expr(ctx: Ctx, folder: Folder, fi, expr: ast.AST):
     return folder.name(ctx.repo.module(mn), nm), nm
 
 
+def _find_sub(ctx: Ctx, folder: Folder, root: FuncInfo, want_bytes: bool = True):
+    """the `<regex>.sub(repl, X)` call in root or in a module-level helper it calls: (function, call, regex, name)"""
+    for fi in [root] + _module_helpers(root):
+        for c in astq.method_calls(fi.node, "sub"):
+            if len(c.args) >= 2:
+                try:
+                    rx, nm = _fold(ctx, folder, fi, c.func.value)  # type: ignore[attr-defined]
+                except (AnalysisError, Unfoldable):
+                    continue
+                if isinstance(rx, RegexConst) and isinstance(rx.pattern, bytes) == want_bytes:
+                    return fi, c, rx, nm
+    return None
+
+
+def _is_quote_wrapped(e: ast.AST) -> ast.AST | None:
+    """'"' + X + '"'  or  f'"{X}"'  -> X"""
+    if isinstance(e, ast.JoinedStr) and len(e.values) == 3 and astq.const_str(e.values[0]) == '"' and astq.const_str(e.values[2]) == '"' and isinstance(e.values[1], ast.FormattedValue):
+        return e.values[1].value
+    if isinstance(e, ast.BinOp) and isinstance(e.op, ast.Add) and astq.const_str(e.right) == '"' and isinstance(e.left, ast.BinOp) and isinstance(e.left.op, ast.Add) and astq.const_str(e.left.left) == '"':
+        return e.left.right
+    return None
+
+
 def run(ctx: Ctx) -> None:
     repo = ctx.repo
     folder = Folder(repo)
@@ -48,53 +121,70 @@ def run(ctx: Ctx) -> None:
     ctx.saw(dump)
     fn = dump.node
 
-    ctx.rule("R13.1", "escape class ESC (regex substituted over value.encode() in dump_cookie) contains every byte that is not an RFC 6265 cookie-octet")
-    ctx.rule("R13.2", "escape map is total over ESC; each image is ASCII, backslash+self for quote/backslash else backslash+3 octal digits (first <= 3) of the byte; each image is matched whole by the parser's unslash regex and mapped back to the byte by its replacement function")
+    ctx.rule("R13.1", "escape class ESC (regex substituted over the encoded value in dump_cookie) contains every byte that is not an RFC 6265 cookie-octet")
+    ctx.rule("R13.2", "escape map is total over ESC; each image is ASCII, backslash+self for quote/backslash else backslash+3 octal digits (first <= 3) of the byte; each image is matched whole by the parser's unslash regex and mapped back to the byte by its replacement function; the parser unescapes quoted values only, in one pass, and stores the result untransformed")
     ctx.rule("R13.3", "the no-quote fast path is a fullmatch of a re.ASCII class contained in the cookie-octets")
     ctx.rule("R13.4", "escaped bytes are decoded as ASCII and wrapped in double quotes; ESC covers 0x80-0xFF")
     ctx.rule("R13.5", "attribute loop iterates the literal tuple Domain, Expires, Max-Age, Secure, HttpOnly, Path, SameSite, Partitioned; SameSite title-cased and validated; path quoted with ';' unsafe; domain IDNA->ASCII; timedelta max_age -> int; partitioned => secure")
     ctx.rule("R13.6", "http.parse_cookie and Request.cookies reach sansio.http.parse_cookie; Response.set_cookie forwards every attribute to dump_cookie; test client splits the pair at the first ';'")
 
-    # ---- slots from dump_cookie -------------------------------------
-    # the guarded quoting block:  if not NQ.fullmatch(value): value = ESC.sub(f, value.encode()).decode("ascii"); value = f'"{value}"'
-    quoting_if = None
-    for n in ast.walk(fn):
-        if isinstance(n, ast.If):
-            for c in astq.calls(n.test):
-                if isinstance(c.func, ast.Attribute) and c.func.attr in ("fullmatch", "match", "search") and c.args and astq.is_name(c.args[0], "value"):
-                    quoting_if = (n, c)
-    if quoting_if is None:
-        raise AnalysisError("dump_cookie: no `if <regex>.<match>(value)` guard found (fast-path slot)")
-    if_node, nq_call = quoting_if
-    nq, nq_name = _fold_name_expr(ctx, folder, dump, nq_call.func.value)  # type: ignore[attr-defined]
-    if not isinstance(nq, RegexConst):
-        raise AnalysisError(f"{nq_name} does not fold to a regex")
-
-    sub_call = None
-    for c in astq.method_calls(if_node, "sub"):
-        if len(c.args) >= 2:
-            sub_call = c
-    if sub_call is None:
-        raise AnalysisError("dump_cookie: no <regex>.sub(...) inside the quoting branch (escape slot)")
-    esc, esc_name = _fold_name_expr(ctx, folder, dump, sub_call.func.value)  # type: ignore[attr-defined]
-    if not isinstance(esc, RegexConst) or not isinstance(esc.pattern, bytes):
-        raise AnalysisError(f"{esc_name} does not fold to a bytes regex")
-    # replacement: lambda m: MAP[m.group()]
+    # ---- slots on the writer side ------------------------------------
+    found = _find_sub(ctx, folder, dump, want_bytes=True)
+    if found is None:
+        raise AnalysisError("dump_cookie: no <bytes regex>.sub(...) in it or its helpers (escape slot)")
+    qf, sub_call, esc, esc_name = found
+    ctx.saw(qf)
+    Q = Fn(qf)
+    # the encoded argument: X.encode() where X is the value (possibly via a local)
+    enc_arg = Q.expand(sub_call.args[1], sub_call)
+    enc_ok = isinstance(enc_arg, ast.Call) and isinstance(enc_arg.func, ast.Attribute) and enc_arg.func.attr == "encode" and isinstance(enc_arg.func.value, ast.Name) and (not enc_arg.args or astq.const_str(enc_arg.args[0]) in ("utf-8", "utf8"))
+    vname = enc_arg.func.value.id if enc_ok else None  # type: ignore[union-attr]
+    if qf is dump:
+        value_is_value = vname == "value"
+    else:
+        hcalls = [c for c in astq.calls(dump.node) if dotted(c.func) == qf.name]
+        value_is_value = bool(hcalls) and all(len(c.args) >= 1 and astq.is_name(c.args[0], "value") for c in hcalls) and vname == (qf.params[0] if qf.params else None)
+    # replacement: lambda m: MAP[m.group()]  or a function returning that
     repl = sub_call.args[0]
-    map_name = None
-    if isinstance(repl, ast.Lambda) and isinstance(repl.body, ast.Subscript):
-        sl = repl.body.slice
-        if isinstance(sl, ast.Call) and isinstance(sl.func, ast.Attribute) and sl.func.attr == "group" and not sl.args:
-            map_name = repl.body.value
-    if map_name is None:
-        raise AnalysisError("dump_cookie: replacement is not `lambda m: MAP[m.group()]` (map slot)")
-    emap, emap_name = _fold_name_expr(ctx, folder, dump, map_name)
+    body = None
+    if isinstance(repl, ast.Lambda):
+        body = repl.body
+    elif dotted(repl) and dotted(repl) in qf.module.functions:
+        rf = qf.module.functions[dotted(repl)]
+        rets = astq.returns_of(rf.node)
+        if len(rets) == 1:
+            body = rets[0].value
+    map_expr = None
+    if isinstance(body, ast.Subscript) and isinstance(body.slice, ast.Call) and isinstance(body.slice.func, ast.Attribute) and body.slice.func.attr == "group" and not body.slice.args:
+        map_expr = body.value
+    if map_expr is None:
+        raise AnalysisError("dump_cookie: escape replacement is not `MAP[m.group()]` (map slot)")
+    emap, emap_name = _fold(ctx, folder, qf, map_expr)
     if not isinstance(emap, dict):
         raise AnalysisError(f"{emap_name} does not fold to a dict")
-
     ESC, rep = single_class(esc, 256)
     if rep != (1, 1):
         raise AnalysisError(f"{esc_name} is not a single-byte class (repeat {rep})")
+    # fast path test on the same value
+    fast = None
+    for t in Q.cfg.tests():
+        if t.kind != "test":
+            continue
+        e = t.ast
+        while isinstance(e, ast.UnaryOp):
+            e = e.operand
+        if isinstance(e, ast.Compare) and len(e.ops) == 1 and astq.is_none(e.comparators[0]):
+            e = e.left
+        if isinstance(e, ast.Call) and isinstance(e.func, ast.Attribute) and e.func.attr in ("fullmatch", "match", "search") and e.args and astq.is_name(e.args[0], vname):
+            try:
+                rx, nm = _fold(ctx, folder, qf, e.func.value)
+            except (AnalysisError, Unfoldable):
+                continue
+            if isinstance(rx, RegexConst):
+                fast = (t, e, rx, nm)
+    if fast is None:
+        raise AnalysisError("dump_cookie: no `<regex>.<match>(value)` test guarding the escape (fast-path slot)")
+    ft, fcall, nq, nq_name = fast
 
     # ---- R13.1 -----------------------------------------------------
     n131 = 0
@@ -102,44 +192,32 @@ def run(ctx: Ctx) -> None:
         if b in COOKIE_OCTETS:
             continue
         n131 += 1
-        ctx.ob(
-            "R13.1",
-            f"byte 0x{b:02x} escaped",
-            b in ESC,
-            f"0x{b:02x} is not a cookie-octet and is {'in' if b in ESC else 'NOT in'} {esc_name} = {esc.pattern!r}",
-            dump,
-            sub_call,
-            f"byte 0x{b:02x}",
-        )
+        ctx.ob("R13.1", f"byte 0x{b:02x} escaped", b in ESC, f"0x{b:02x} is not a cookie-octet and is {'in' if b in ESC else 'NOT in'} {esc_name} = {esc.pattern!r}", dump, sub_call if qf is dump else None, f"byte 0x{b:02x}")
     ctx.floor("R13.1", "non-cookie-octet bytes", n131, 256 - len(COOKIE_OCTETS))
 
-    # ---- R13.2 -----------------------------------------------------
+    # ---- R13.2 (writer map vs reader) -----------------------------------
     sparse = repo.func("sansio.http.parse_cookie")
     ctx.saw(sparse)
-    unsl_call = None
-    for c in astq.method_calls(sparse.node, "sub"):
-        unsl_call = c
-    if unsl_call is None:
-        raise AnalysisError("sansio.http.parse_cookie: no <regex>.sub(...) (unslash slot)")
-    unsl, unsl_name = _fold_name_expr(ctx, folder, sparse, unsl_call.func.value)  # type: ignore[attr-defined]
-    if not isinstance(unsl, RegexConst):
-        raise AnalysisError(f"{unsl_name} does not fold to a regex")
+    ufound = _find_sub(ctx, folder, sparse, want_bytes=True)
+    if ufound is None:
+        raise AnalysisError("sansio.http.parse_cookie: no <bytes regex>.sub(...) in it or its helpers (unslash slot)")
+    uf, unsl_call, unsl, unsl_name = ufound
+    ctx.saw(uf)
+    U = Fn(uf)
     repl_fn_name = dotted(unsl_call.args[0])
-    repl_fi = sparse.module.functions.get(repl_fn_name or "")
+    repl_fi = uf.module.functions.get(repl_fn_name or "")
     if repl_fi is None:
         raise AnalysisError("unslash replacement function not found")
     ctx.saw(repl_fi)
-    shape_ok, shape_fact = _unslash_shape(repl_fi.node)
-    ctx.ob("R13.2", "unslash replacement shape", shape_ok, shape_fact, repl_fi, repl_fi.node, "replacement shape")
-    import re as _re
-
-    unsl_c = _re.compile(unsl.pattern, unsl.flags)
+    shape_ok, shape_fact = _unslash_shape(repl_fi)
+    ctx.ob("R13.2", "unslash replacement: one character is returned as is, three digits are read as an octal byte", shape_ok, shape_fact, repl_fi, repl_fi.node, "replacement shape")
+    unsl_c = re.compile(unsl.pattern, unsl.flags)
     n = 0
     for b in sorted(ESC):
         key = bytes([b])
         n += 1
         if key not in emap:
-            ctx.ob("R13.2", f"map total at 0x{b:02x}", False, f"{esc_name} matches 0x{b:02x} but {emap_name} has no entry: KeyError inside re.sub", dump, sub_call, f"map key 0x{b:02x}")
+            ctx.ob("R13.2", f"map total at 0x{b:02x}", False, f"{esc_name} matches 0x{b:02x} but {emap_name} has no entry: KeyError inside re.sub", dump, None, f"map key 0x{b:02x}")
             continue
         img = emap[key]
         good_form = isinstance(img, bytes) and all(c < 128 for c in img) and (
@@ -152,86 +230,92 @@ def run(ctx: Ctx) -> None:
                 g = m.group(1)
                 back = g if len(g) == 1 else bytes([int(g, 8)])
                 inv = back == key
-        ctx.ob(
-            "R13.2",
-            f"escape of 0x{b:02x}",
-            good_form and inv,
-            f"{emap_name}[0x{b:02x}] = {img!r}: form {'ok' if good_form else 'BAD'}, {'inverted' if inv else 'NOT inverted'} by {unsl_name} = {unsl.pattern!r}",
-            dump,
-            sub_call,
-            f"map image 0x{b:02x}",
-        )
+        ctx.ob("R13.2", f"escape of 0x{b:02x}", good_form and inv, f"{emap_name}[0x{b:02x}] = {img!r}: form {'ok' if good_form else 'BAD'}, {'inverted' if inv else 'NOT inverted'} by {unsl_name} = {unsl.pattern!r}", dump, None, f"map image 0x{b:02x}")
     ctx.floor("R13.2", "escaped bytes with map images", n, 150)
-    # raw bytes inside the quotes (cookie-octets and whatever R13.1 leaves raw) must pass the unslash regex untouched
     raw = set(range(256)) - ESC
-    ctx.ob("R13.2", "backslash never raw", 0x5C not in raw, "backslash is in the escape class, so no raw byte can start an escape sequence in the parser", dump, sub_call, "backslash raw")
-    # parser applies unslash only to quoted values and decodes leniently
-    chain = astq.method_chain(astq.parent(unsl_call) and _outer_chain(unsl_call))
-    dec = [c for a, c in chain if a == "decode"]
-    ctx.ob("R13.2", "parser decodes unescaped bytes as UTF-8", bool(dec) and _decode_is_utf8(dec[-1]), "unslash result .decode() with default/utf-8 codec", sparse, unsl_call, "parser decode")
-
-    # the value stored for the pair is the unescaped text itself: nothing (strip, replace ...) is applied after unescaping
-    from ..cfg import cfg_of as _cfg_of
-    from ..dataflow import ReachingDefs as _RD
-
-    pcfg = _cfg_of(sparse)
-    prd = _RD(pcfg, sparse.params)
-    unsl_stmt = astq.stmt_of(sparse, unsl_call)
-    appends = [c for c in astq.method_calls(sparse.node, "append") if c.args and isinstance(c.args[0], ast.Tuple) and len(c.args[0].elts) == 2]
-    if len(appends) != 1:
-        raise AnalysisError("sansio.http.parse_cookie: expected one out.append((key, value))")
-    vexpr = appends[0].args[0].elts[1]
-    post_ok = isinstance(vexpr, ast.Name)
-    fact = f"stored value expression `{norm(vexpr)}`"
-    if post_ok:
-        quoted_if = astq.enclosing(unsl_call, (ast.If,))
-        defs = prd.reaching(pcfg.node_of(appends[0]), vexpr.id)
-        for d in defs:
-            if d.stmt is unsl_stmt:
-                continue
-            # any other definition must already be visible at the quoted-value test (i.e. made before unescaping)
-            tn = pcfg.node_of(quoted_if.test) if quoted_if is not None else None
-            before = tn is not None and d in prd.reaching(tn, vexpr.id)
-            if not before:
-                post_ok = False
-                fact = f"`{vexpr.id}` is rebound after unescaping: {norm(d.stmt) if d.stmt is not None else d.kind}"
-    ctx.ob("R13.2", "parsed value is stored exactly as unescaped", post_ok, fact, sparse, appends[0], "value stored as unescaped")
+    ctx.ob("R13.2", "backslash never raw", 0x5C not in raw, "backslash is in the escape class, so no raw byte can start an escape sequence in the parser", dump, None, "backslash raw")
+    # reader: argument is <quoted>[1:-1].encode(); result decoded leniently; single pass
+    uarg = U.expand(unsl_call.args[1], unsl_call)
+    uarg_ok = isinstance(uarg, ast.Call) and isinstance(uarg.func, ast.Attribute) and uarg.func.attr == "encode" and isinstance(uarg.func.value, ast.Subscript) and norm(uarg.func.value.slice) == "1:-1"
+    ctx.ob("R13.2", "the parser unescapes exactly the text between the surrounding quotes", uarg_ok, f"substitution argument `{norm(uarg)}`", uf, unsl_call, "unslash argument")
+    subs_in_reader = [c for f_ in [sparse] + _module_helpers(sparse) for c in astq.method_calls(f_.node, "sub")]
+    ctx.ob("R13.2", "the parser unescapes in a single pass", len(subs_in_reader) == 1, f"{len(subs_in_reader)} regex substitution(s) on the parse path", uf, unsl_call, "single unescape pass")
+    # the decoded result: find the expression containing the sub call up to .decode(...)
+    outer = _outer_chain(unsl_call)
+    dec = [c for a, c in astq.method_chain(outer) if a == "decode"]
+    if not dec:
+        # via a local: data = RE.sub(...); return data.decode(...)
+        for c in astq.method_calls(uf.node, "decode"):
+            ex = U.expand(c, c)
+            if any(isinstance(x, ast.Call) and isinstance(x.func, ast.Attribute) and x.func.attr == "sub" for x in ast.walk(ex)):
+                dec = [c]
+    ctx.ob("R13.2", "parser decodes unescaped bytes as UTF-8", bool(dec) and _decode_is_utf8(dec[-1]), "unslash result .decode() with default/utf-8 codec", uf, unsl_call, "parser decode")
+    _reader_rules(ctx, sparse, uf, unsl_call)
 
     # ---- R13.3 -----------------------------------------------------
     NQ, _rep = single_class(nq, 256)
     NQ_full, _ = single_class(nq, 0x3000)
-    is_full = nq_call.func.attr == "fullmatch"  # type: ignore[attr-defined]
-    import re
-
-    ctx.ob("R13.3", "fast path uses fullmatch", is_full, f"{nq_name}.{nq_call.func.attr}(value)", dump, nq_call, "fast path match kind")  # type: ignore[attr-defined]
-    neg = isinstance(if_node.test, ast.UnaryOp) and isinstance(if_node.test.op, ast.Not)
-    ctx.ob("R13.3", "quoting branch is the non-matching edge", neg, "escape block guarded by `not <fast path>`", dump, if_node.test, "fast path polarity")
-    ctx.ob("R13.3", "fast path class is ASCII-only", bool(nq.flags & re.A) and all(c < 128 for c in NQ_full), f"{nq_name} flags={nq.flags}", dump, nq_call, "fast path ascii")
+    is_full = fcall.func.attr == "fullmatch"  # type: ignore[attr-defined]
+    ctx.ob("R13.3", "fast path uses fullmatch", is_full, f"{nq_name}.{fcall.func.attr}(value)", qf, fcall, "fast path match kind")  # type: ignore[attr-defined]
+    # the escape runs exactly when the value does NOT match; when it matches the value is passed on unchanged
+    k_fast, p_fast = canon(ft.ast)
+    g_sub = guard_set(Q.cfg, Q.cfg.node_of(sub_call))
+    # truth of "matches": the canonical key may be `<call>` (truthy = match) or `<call> is None` (true = no match)
+    matches_when = (not p_fast) if k_fast.endswith(" is None") else p_fast  # value of key meaning "matched" ... see below
+    key_true_means_match = not k_fast.endswith(" is None")
+    quoted_on_nonmatch = (k_fast, not key_true_means_match) in g_sub
+    ctx.ob("R13.3", "escaping happens exactly on the non-matching edge", quoted_on_nonmatch, f"guards of the substitution: {sorted(g_sub)}", qf, ft.ast, "fast path polarity")
+    # label of the test's edge taken when the value matches
+    match_label = "T" if (key_true_means_match == p_fast) else "F"
+    nonmatch_label = "F" if match_label == "T" else "T"
+    if qf is dump:
+        # on the matching edge neither the substitution nor any rebinding of the value is reachable before the pair is built
+        r_ = Q.cfg.reach(avoid_edges=[(ft, nonmatch_label)])
+        rebinds = [Q.cfg.node_of(s_) for s_, _ in astq.assigns_to(qf.node, vname or "value")]
+        unchanged = Q.cfg.node_of(sub_call).id not in r_ and not any(n_ is not None and n_.id in r_ for n_ in rebinds)
+        npaths = "reachability"
+    else:
+        outs = simulate(Q.cfg, lambda k: (key_true_means_match if k == k_fast else None))
+        unchanged = bool(outs) and all(o.kind == "return" and astq.is_name(o.value, vname) for o in outs)
+        npaths = f"{len(outs)} path(s)"
+    ctx.ob("R13.3", "a matching value is emitted unchanged", unchanged, f"matching edge: {npaths}", qf, ft.ast, "fast path passes value through")
+    ctx.ob("R13.3", "fast path class is ASCII-only", bool(nq.flags & re.A) and all(c < 128 for c in NQ_full), f"{nq_name} flags={nq.flags}", qf, fcall, "fast path ascii")
     extra = sorted(NQ - COOKIE_OCTETS)
-    ctx.ob("R13.3", "fast path class within cookie-octets", not extra, f"{nq_name} admits {len(NQ)} byte values; outside cookie-octets: {[hex(x) for x in extra]}", dump, nq_call, "fast path subset")
+    ctx.ob("R13.3", "fast path class within cookie-octets", not extra, f"{nq_name} admits {len(NQ)} byte values; outside cookie-octets: {[hex(x) for x in extra]}", qf, fcall, "fast path subset")
 
     # ---- R13.4 -----------------------------------------------------
     hi = [b for b in range(0x80, 0x100) if b not in ESC]
-    ctx.ob("R13.4", "high bytes escaped", not hi, f"{len(hi)} bytes >= 0x80 outside {esc_name}", dump, sub_call, "high bytes")
-    chain = astq.method_chain(_outer_chain(sub_call))
-    dec = [c for a, c in chain if a == "decode"]
-    ascii_dec = bool(dec) and dec[-1].args and astq.const_str(dec[-1].args[0]) in ("ascii", "us-ascii")
-    ctx.ob("R13.4", "escaped value decoded as ascii", bool(ascii_dec), "`.decode('ascii')` after substitution", dump, sub_call, "ascii decode")
-    enc_arg = sub_call.args[1]
-    enc_ok = isinstance(enc_arg, ast.Call) and isinstance(enc_arg.func, ast.Attribute) and enc_arg.func.attr == "encode" and astq.is_name(enc_arg.func.value, "value") and (not enc_arg.args or astq.const_str(enc_arg.args[0]) in ("utf-8", "utf8"))
-    ctx.ob("R13.4", "substitution runs over UTF-8 bytes of the value", enc_ok, ast.unparse(enc_arg), dump, sub_call, "utf8 encode")
-    # quoting:  value = f'"{value}"' inside the branch, after the substitution
-    wrapped = False
-    for st in if_node.body:
-        if isinstance(st, ast.Assign) and astq.is_name(st.targets[0], "value") and isinstance(st.value, ast.JoinedStr):
-            parts = st.value.values
-            if len(parts) == 3 and astq.const_str(parts[0]) == '"' and astq.const_str(parts[2]) == '"' and isinstance(parts[1], ast.FormattedValue) and astq.is_name(parts[1].value, "value"):
-                wrapped = st.lineno > sub_call.lineno
-    ctx.ob("R13.4", "escaped value wrapped in double quotes", wrapped, "value = f'\"{value}\"' after the substitution", dump, if_node, "quote wrap")
-    # no other rebinding of value, and the pair is emitted as key=value first
+    ctx.ob("R13.4", "high bytes escaped", not hi, f"{len(hi)} bytes >= 0x80 outside {esc_name}", dump, None, "high bytes")
+    ctx.ob("R13.4", "substitution runs over UTF-8 bytes of the value", bool(enc_ok and value_is_value), f"`{norm(enc_arg)}`", qf, sub_call, "utf8 encode")
+    # the value that leaves the quoting code on the non-matching edge is '"' + <sub(...)>.decode('ascii') + '"'
+    wrapped_ok = False
+    fact = "no quoted result found"
+    cands: list[tuple[ast.AST, ast.AST]] = []
+    for st in walk_no_nested(qf.node):
+        if isinstance(st, ast.Return) and st.value is not None:
+            cands.append((st.value, st))
+        if isinstance(st, ast.Assign) and len(st.targets) == 1 and isinstance(st.targets[0], ast.Name):
+            cands.append((st.value, st))
+    for e, st in cands:
+        ex = Q.expand(e, st)
+        inner = _is_quote_wrapped(ex)
+        if inner is None:
+            continue
+        ch = astq.method_chain(inner)
+        names_ = [a for a, _ in ch]
+        if "sub" in names_ and "decode" in names_ and names_.index("sub") < names_.index("decode"):
+            d = dict(ch)["decode"]
+            wrapped_ok = bool(d.args) and astq.const_str(d.args[0]) in ("ascii", "us-ascii")
+            fact = f"`{norm(ex)[:120]}`"
+    ctx.ob("R13.4", "escaped value is decoded as ASCII and wrapped in double quotes", wrapped_ok, fact, qf, sub_call, "ascii decode and quote wrap")
+    # in dump_cookie the pair uses the (possibly quoted) value and nothing else rebinds it
     binds = astq.assigns_to(fn, "value")
-    outside = [s for s, _ in binds if not (if_node.lineno <= s.lineno <= (if_node.end_lineno or 0))]
-    ctx.ob("R13.4", "value rebound only in the quoting branch", not outside, f"{len(binds)} bindings of value, {len(outside)} outside the quoting branch", dump, fn, "value rebinding")
+    if qf is dump:
+        quoting_if = astq.enclosing(sub_call, (ast.If,))
+        outside = [s for s, _ in binds if quoting_if is None or not (quoting_if.lineno <= s.lineno <= (quoting_if.end_lineno or 0))]
+    else:
+        outside = [s for s, v in binds if not (isinstance(v, ast.Call) and dotted(v.func) == qf.name)]
+    ctx.ob("R13.4", "value rebound only by the quoting code", not outside and (qf is dump or len(binds) == 1), f"{len(binds)} bindings of value in dump_cookie, {len(outside)} outside the quoting code", dump, fn, "value rebinding")
 
     # ---- R13.5 -----------------------------------------------------
     loop = None
@@ -245,7 +329,6 @@ def run(ctx: Ctx) -> None:
     vals = [dotted(e.elts[1]) for e in loop.iter.elts]  # type: ignore[attr-defined]
     expect_vals = ["domain", "expires", "max_age", "secure", "httponly", "path", "samesite", "partitioned"]
     ctx.ob("R13.5", "attribute values wired to their parameters", vals == expect_vals, f"values {vals}", dump, loop, "attribute wiring")
-    # buf starts with the key=value pair and rv is "; ".join(buf)
     first = None
     for st, v in astq.assigns_to(fn, "buf"):
         if isinstance(v, ast.List) and len(v.elts) == 1 and isinstance(v.elts[0], ast.JoinedStr):
@@ -257,30 +340,34 @@ def run(ctx: Ctx) -> None:
     ctx.ob("R13.5", "pair emitted first as key=value", pair_ok, "buf = [f'{key...}={value}']", dump, fn, "pair first")
     joins = [c for c in astq.method_calls(fn, "join") if astq.const_str(c.func.value) == "; " and c.args and astq.is_name(c.args[0], "buf")]  # type: ignore[attr-defined]
     ctx.ob("R13.5", "attributes joined with '; '", len(joins) == 1, f"{len(joins)} `'; '.join(buf)`", dump, fn, "join")
-    # loop body: None/False skipped, True -> bare name, else k=v
-    ctx.ob("R13.5", "loop body emits bare name / name=value", _attr_loop_body_ok(loop), "skip None/False; True -> k; else f'{k}={v}'", dump, loop, "attribute loop body")
+    ok_body, body_fact = _attr_loop_body_ok(dump, loop)
+    ctx.ob("R13.5", "loop body emits bare name / name=value", ok_body, body_fact, dump, loop, "attribute loop body")
 
-    # SameSite
     ss = [(s, v) for s, v in astq.assigns_to(fn, "samesite")]
     titled = any(isinstance(v, ast.Call) and isinstance(v.func, ast.Attribute) and v.func.attr == "title" and astq.is_name(v.func.value, "samesite") for _, v in ss)
     chk = None
-    for nnode in ast.walk(fn):
-        if isinstance(nnode, ast.If):
-            cp = astq.cmp_parts(nnode.test)
-            if cp and astq.is_name(cp[0], "samesite") and isinstance(cp[1], ast.NotIn):
-                try:
-                    allowed = set(folder.expr(dump.module, cp[2]))
-                except Unfoldable:
-                    allowed = None
-                raises = [astq.raised_name(r) for r in astq.raises_of(nnode)]
-                chk = (nnode, allowed, raises)
-    ok = bool(titled and chk and chk[1] == {"Strict", "Lax", "None"} and "ValueError" in chk[2] and chk[0].lineno < loop.lineno)
-    ctx.ob("R13.5", "SameSite normalised and validated before use", ok, f"title()={titled}, allowed={chk[1] if chk else None}, raises={chk[2] if chk else None}", dump, chk[0] if chk else fn, "samesite check")
-    # every rebinding of samesite precedes the check or is the title() one
+    dcfg = cfg_of(dump)
+    for t in dcfg.tests():
+        if t.kind != "test":
+            continue
+        k, p = canon(t.ast)
+        if k.startswith("samesite in "):
+            cmp_ = t.ast
+            while isinstance(cmp_, ast.UnaryOp):
+                cmp_ = cmp_.operand
+            try:
+                allowed = set(folder.expr(dump.module, cmp_.comparators[0]))
+            except Unfoldable:
+                allowed = None
+            bad_label = "F" if p else "T"  # edge on which the value is NOT in the set
+            succ = dcfg.succ(t, bad_label)
+            raises = bool(succ) and all(isinstance(s_.ast, ast.Raise) and astq.raised_name(s_.ast) == "ValueError" for s_ in succ)
+            chk = (t, allowed, raises)
+    ok = bool(titled and chk and chk[1] == {"Strict", "Lax", "None"} and chk[2] and chk[0].lineno < loop.lineno)
+    ctx.ob("R13.5", "SameSite normalised and validated before use", ok, f"title()={titled}, allowed={chk[1] if chk else None}, invalid raises ValueError={chk[2] if chk else None}", dump, chk[0].ast if chk else fn, "samesite check")
     late = [s for s, v in ss if chk and s.lineno > chk[0].lineno]
     ctx.ob("R13.5", "SameSite not rebound after validation", not late, f"{len(late)} later bindings", dump, fn, "samesite rebinding")
 
-    # path
     pq = None
     for s, v in astq.assigns_to(fn, "path"):
         if isinstance(v, ast.Call) and (dotted(v.func) or "").rsplit(".", 1)[-1] == "quote" and v.args and astq.is_name(v.args[0], "path"):
@@ -295,7 +382,6 @@ def run(ctx: Ctx) -> None:
         ctx.ob("R13.5", "path safe set excludes ';' and separators", not bad and not nonascii, f"safe={safe!r} bad={bad + nonascii}", dump, pq, "path quote")
         only_quote = all(v is pq or s.lineno < pq.lineno for s, v in astq.assigns_to(fn, "path"))
         ctx.ob("R13.5", "path not rebound after quoting", only_quote, "", dump, fn, "path rebinding")
-    # domain
     dq = False
     for s, v in astq.assigns_to(fn, "domain"):
         ch = astq.method_chain(v) if v is not None else []
@@ -304,10 +390,8 @@ def run(ctx: Ctx) -> None:
             e = dict(ch)["encode"]
             d = dict(ch)["decode"]
             dq = bool(e.args and astq.const_str(e.args[0]) == "idna" and d.args and astq.const_str(d.args[0]) == "ascii" and names_.index("encode") < names_.index("decode"))
-            root = astq.chain_root(v)
-            dq = dq and astq.is_name(root, "domain")
+            dq = dq and astq.is_name(astq.chain_root(v), "domain")
     ctx.ob("R13.5", "domain IDNA-encoded to ASCII", dq, "domain = domain...encode('idna').decode('ascii')", dump, fn, "domain idna")
-    # max_age timedelta
     ma = False
     for nnode in ast.walk(fn):
         if isinstance(nnode, ast.If) and isinstance(nnode.test, ast.Call) and dotted(nnode.test.func) == "isinstance" and astq.is_name(nnode.test.args[0], "max_age"):
@@ -315,7 +399,6 @@ def run(ctx: Ctx) -> None:
                 if isinstance(st, ast.Assign) and astq.is_name(st.targets[0], "max_age") and isinstance(st.value, ast.Call) and dotted(st.value.func) == "int":
                     ma = "total_seconds" in ast.unparse(st.value)
     ctx.ob("R13.5", "timedelta max_age -> int seconds", ma, "max_age = int(max_age.total_seconds())", dump, fn, "max_age")
-    # partitioned => secure
     ps_ok = False
     for nnode in ast.walk(fn):
         if isinstance(nnode, ast.If) and astq.is_name(nnode.test, "partitioned"):
@@ -323,13 +406,7 @@ def run(ctx: Ctx) -> None:
                 if isinstance(st, ast.Assign) and astq.is_name(st.targets[0], "secure") and isinstance(st.value, ast.Constant) and st.value.value is True:
                     ps_ok = st.lineno < loop.lineno
     ctx.ob("R13.5", "partitioned implies secure", ps_ok, "if partitioned: secure = True (before the attribute loop)", dump, fn, "partitioned secure")
-    # expires
-    ex_ok = False
-    for nnode in ast.walk(fn):
-        if isinstance(nnode, ast.If) and "isinstance(expires, str)" in norm(nnode.test):
-            for st in nnode.body:
-                if isinstance(st, ast.Assign) and astq.is_name(st.targets[0], "expires") and isinstance(st.value, ast.Call) and dotted(st.value.func) == "http_date":
-                    ex_ok = True
+    ex_ok = any(isinstance(s, ast.Assign) and astq.is_name(s.targets[0], "expires") and isinstance(s.value, ast.Call) and dotted(s.value.func) == "http_date" and s.value.args and astq.is_name(s.value.args[0], "expires") and (("isinstance(expires, str)", False) in guard_set(dcfg, dcfg.node_of(s))) for s in ast.walk(fn))
     ctx.ob("R13.5", "non-str expires formatted by http_date", ex_ok, "expires = http_date(expires) unless already a str", dump, fn, "expires")
 
     # ---- R13.6 -----------------------------------------------------
@@ -369,9 +446,96 @@ def run(ctx: Ctx) -> None:
     ctx.ob("R13.6", "set_cookie forwards every attribute", bool(fwd_ok), fact, sc, sc.node, "set_cookie forwarding")
     tc = repo.func("test.Cookie._from_response_header")
     ctx.saw(tc)
-    first_stmt = [s for s in tc.node.body if not (isinstance(s, ast.Expr) and isinstance(s.value, ast.Constant))][0]
-    part_ok = isinstance(first_stmt, ast.Assign) and isinstance(first_stmt.value, ast.Call) and isinstance(first_stmt.value.func, ast.Attribute) and first_stmt.value.func.attr == "partition" and astq.const_str(first_stmt.value.args[0]) == ";"
-    ctx.ob("R13.6", "test client cuts the pair at the first ';' (safe because ';' is escaped)", part_ok and 0x3B in ESC, "header.partition(';') and 0x3b in ESC", tc, first_stmt, "client split")
+    parts = [c for c in astq.method_calls(tc.node, "partition") + astq.method_calls(tc.node, "split") if c.args and astq.const_str(c.args[0]) == ";" and astq.is_name(c.func.value, "header")]  # type: ignore[attr-defined]
+    first_cut = bool(parts) and all((c.func.attr == "partition") or (len(c.args) == 2 and norm(c.args[1]) == "1") for c in parts)  # type: ignore[attr-defined]
+    # the cookie pair handed to parse_cookie / the key=value split is the part before the first ';' only
+    pc_calls = astq.name_calls(tc.node, "parse_cookie")
+    T = Fn(tc)
+    pair_only = bool(pc_calls) and all(_is_first_piece(T.expand(c.args[0], c)) or _is_first_piece_name(T, c.args[0], c) for c in pc_calls if c.args)
+    ctx.ob("R13.6", "test client cuts the pair at the first ';' (safe because ';' is escaped) and parses only that pair", first_cut and pair_only and 0x3B in ESC, f"first-';' cut: {first_cut}; parse_cookie gets the pair only: {pair_only}; 0x3b escaped: {0x3B in ESC}", tc, tc.node, "client split")
+    # parameters are taken from the remainder only (the pair itself is never read as an attribute)
+    loops = [n for n in ast.walk(tc.node) if isinstance(n, (ast.For, ast.comprehension))]
+    over = [norm(T.expand(l.iter, l.iter if isinstance(l, ast.comprehension) else l)) for l in loops]
+    rest_only = bool(over) and all(("partition(';')[2]" in o) or o.startswith("header.partition(';')[2]") or ("parameters_str" in o) or (".split(';')[1:]" in o) for o in over)
+    ctx.ob("R13.6", "test client reads attributes from the part after the pair only", rest_only, f"attribute loop(s) over {over}", tc, tc.node, "client attributes source")
+
+
+def _is_first_piece(e: ast.AST) -> bool:
+    t = norm(e)
+    return t in ("header.partition(';')[0]", "header.split(';', 1)[0]", "header.split(';')[0]")
+
+
+def _is_first_piece_name(T: Fn, e: ast.AST, at: ast.AST) -> bool:
+    """`header, _, rest = header.partition(';')` then parse_cookie(header)"""
+    if not isinstance(e, ast.Name):
+        return False
+    node = T.cfg.node_of(at)
+    defs = T.rd.reaching(node, e.id) if node is not None else set()
+    return bool(defs) and all(d.index == 0 and d.value is not None and norm(d.value) in ("header.partition(';')", "header.split(';', 1)") for d in defs)
+
+
+def _reader_rules(ctx: Ctx, sparse: FuncInfo, uf: FuncInfo, unsl_call: ast.Call) -> None:
+    """the unescape is applied to quoted values only, and its result is what gets stored."""
+    P = Fn(sparse)
+    appends = [c for c in astq.method_calls(sparse.node, "append") if c.args and isinstance(c.args[0], ast.Tuple) and len(c.args[0].elts) == 2]
+    if len(appends) != 1:
+        raise AnalysisError("sansio.http.parse_cookie: expected one out.append((key, value))")
+    app = appends[0]
+    vexpr = app.args[0].elts[1]
+    # the statement in parse_cookie that applies the unescape: contains the sub call, or calls the helper that does
+    def applies(st: ast.AST) -> bool:
+        for x in ast.walk(st):
+            if x is unsl_call:
+                return True
+            if isinstance(x, ast.Call) and uf is not sparse and dotted(x.func) == uf.name:
+                return True
+        return False
+
+    apply_stmts = [s for s in walk_no_nested(sparse.node) if isinstance(s, ast.Assign) and applies(s)]
+    if len(apply_stmts) != 1:
+        raise AnalysisError(f"sansio.http.parse_cookie: expected one assignment applying the unescape, found {len(apply_stmts)}")
+    ast_ = apply_stmts[0]
+    an = P.cfg.node_of(ast_)
+    g = guard_set(P.cfg, an)
+    tgt = ast_.targets[0]
+    vname = tgt.id if isinstance(tgt, ast.Name) else None
+    # quoted-only: length >= 2 and both ends are '"'
+    src = None
+    for x in ast.walk(ast_.value):
+        if isinstance(x, ast.Subscript) and norm(x.slice) == "1:-1" and isinstance(x.value, ast.Name):
+            src = x.value.id
+        if isinstance(x, ast.Call) and uf is not sparse and dotted(x.func) == uf.name and x.args and isinstance(x.args[0], ast.Name):
+            src = x.args[0].id
+    for lv in (1, 2, 3):
+        if src is not None:
+            break
+        for x in ast.walk(P.expand(ast_.value, ast_, levels=lv)):
+            if isinstance(x, ast.Subscript) and norm(x.slice) == "1:-1" and isinstance(x.value, ast.Name):
+                src = x.value.id
+    if src is None:
+        raise AnalysisError("sansio.http.parse_cookie: cannot identify the quoted value that is unescaped")
+    keys = {k for k, v in g if v}
+    len_ok = (f"len({src}) < 2", False) in g or (f"1 < len({src})", True) in g
+    first_q = any(("[0]" in k or "startswith('\"')" in k) and src in k and "'\"'" in k for k in keys)
+    last_q = any(("[-1]" in k or "endswith('\"')" in k) and src in k and "'\"'" in k for k in keys)
+    ctx.ob("R13.2", "the parser unescapes quoted values only (length >= 2, first and last character a double quote)", bool(src) and len_ok and first_q and last_q, f"guards of the unescape on `{src}`: {sorted(k for k in keys)}", sparse, ast_, "unescape quoted only")
+    post_ok = isinstance(vexpr, ast.Name)
+    fact = f"stored value expression `{norm(vexpr)}`"
+    if post_ok:
+        defs = P.rd.reaching(P.cfg.node_of(app), vexpr.id)
+        tests_here = [t for t, _ in P.cfg.guards(an) if t.kind == "test"]
+        ref = max(tests_here, key=lambda t_: (t_.lineno, t_.id)) if tests_here else None  # the innermost guard of the unescape
+        for d in defs:
+            if d.stmt is ast_:
+                continue
+            before = ref is not None and d in P.rd.reaching(ref, vexpr.id)
+            if not before:
+                post_ok = False
+                fact = f"`{vexpr.id}` is rebound after unescaping: {norm(d.stmt) if d.stmt is not None else d.kind}"
+        if vname != vexpr.id:
+            post_ok = False
+            fact = f"the unescaped text is bound to `{vname}` but `{vexpr.id}` is stored"
+    ctx.ob("R13.2", "parsed value is stored exactly as unescaped", post_ok, fact, sparse, app, "value stored as unescaped")
 
 
 def _outer_chain(call: ast.Call) -> ast.AST:
@@ -391,38 +555,71 @@ def _decode_is_utf8(c: ast.Call) -> bool:
     return astq.const_str(c.args[0]) in ("utf-8", "utf8")
 
 
-def _unslash_shape(fn: ast.AST) -> tuple[bool, str]:
-    """v = m.group(1); if len(v) == 1: return v; return int(v, 8).to_bytes(1, ...)"""
-    src = norm(ast.unparse(fn))
-    g1 = any(isinstance(c.func, ast.Attribute) and c.func.attr == "group" and c.args and isinstance(c.args[0], ast.Constant) and c.args[0].value == 1 for c in astq.calls(fn))
-    lit = False
-    for n in ast.walk(fn):
-        if isinstance(n, ast.If):
-            cp = astq.cmp_parts(n.test)
-            if cp and isinstance(cp[1], ast.Eq) and isinstance(cp[0], ast.Call) and dotted(cp[0].func) == "len" and isinstance(cp[2], ast.Constant) and cp[2].value == 1:
-                lit = any(isinstance(s, ast.Return) and isinstance(s.value, ast.Name) for s in n.body)
-    octal = False
+def _unslash_shape(rf: FuncInfo) -> tuple[bool, str]:
+    """v = m.group(1); a single character is returned as is; otherwise int(v, 8) becomes one byte."""
+    fn = rf.node
+    R = Fn(rf)
+    g1 = [c for c in astq.calls(fn) if isinstance(c.func, ast.Attribute) and c.func.attr == "group" and c.args and isinstance(c.args[0], ast.Constant) and c.args[0].value == 1]
+    vnames = {s.targets[0].id for s in walk_no_nested(fn) if isinstance(s, ast.Assign) and isinstance(s.targets[0], ast.Name) and any(c is s.value for c in g1)}
+    octal_ok = False
+    lit_ok = False
     for c in astq.calls(fn):
-        if dotted(c.func) == "int" and len(c.args) == 2 and isinstance(c.args[1], ast.Constant) and c.args[1].value == 8:
+        if dotted(c.func) == "int" and len(c.args) == 2 and isinstance(c.args[1], ast.Constant) and c.args[1].value == 8 and isinstance(c.args[0], ast.Name) and c.args[0].id in vnames:
+            v = c.args[0].id
             p = astq.parent(c)
             pp = astq.parent(p) if p is not None else None
-            if isinstance(p, ast.Attribute) and p.attr == "to_bytes" and isinstance(pp, ast.Call) and pp.args and isinstance(pp.args[0], ast.Constant) and pp.args[0].value == 1:
-                octal = True
-    ok = g1 and lit and octal
-    return ok, f"group(1)={g1}, 1-char returned as is={lit}, 3-digit via int(v, 8).to_bytes(1)={octal} [{src[:60]}...]"
+            one_byte = (isinstance(p, ast.Attribute) and p.attr == "to_bytes" and isinstance(pp, ast.Call) and pp.args and isinstance(pp.args[0], ast.Constant) and pp.args[0].value == 1) or (isinstance(p, (ast.List, ast.Tuple)) and len(p.elts) == 1 and isinstance(pp, ast.Call) and dotted(pp.func) == "bytes")
+            g = guard_set(R.cfg, R.cfg.node_of(c))
+            multi = (f"1 == len({v})", False) in g or (f"len({v}) == 1", False) in g or (f"1 < len({v})", True) in g
+            octal_ok = bool(one_byte and multi)
+            # the single character is returned unchanged on the other edge
+            for r in astq.returns_of(fn):
+                if astq.is_name(r.value, v):
+                    gr = guard_set(R.cfg, R.cfg.node_of(r))
+                    lit_ok = lit_ok or (f"1 == len({v})", True) in gr or (f"len({v}) == 1", True) in gr or not any(k.startswith(("1 == len", "len(")) for k, _ in gr) and multi
+    ok = bool(g1) and octal_ok and lit_ok
+    return ok, f"group(1) read: {bool(g1)}; three digits -> int(v, 8) as one byte, only when len(v) != 1: {octal_ok}; a single character returned as is: {lit_ok}"
 
 
-def _attr_loop_body_ok(loop: ast.For) -> bool:
+def _attr_loop_body_ok(dump: FuncInfo, loop: ast.For) -> tuple[bool, str]:
+    """None / False are skipped, True emits the bare name, anything else emits name=value (decision table over the loop body)."""
     k, v = [e.id for e in loop.target.elts]  # type: ignore[attr-defined]
-    skip = bare = kv = False
-    for n in ast.walk(loop):
-        if isinstance(n, ast.If):
-            t_ = norm(n.test)
-            if t_ in (f"{v} is None or {v} is False", f"{v} is False or {v} is None") and any(isinstance(s, ast.Continue) for s in n.body):
-                skip = True
-            if t_ == f"{v} is True":
-                bare = any(norm(s) == f"buf.append({k})" for s in n.body) and any(isinstance(s, ast.Continue) for s in n.body)
-    for s in loop.body:
-        if norm(s) in (f"buf.append(f'{{{k}}}={{{v}}}')",):
-            kv = True
-    return skip and bare and kv
+    cfg = cfg_of(dump)
+    heads = cfg.by_ast.get(id(loop))
+    if not heads:
+        return False, "loop not in CFG"
+    head = heads[0]
+    body_ids = {id(x) for s in loop.body for x in ast.walk(s)}
+    KN, KF, KT = canon(ast.parse(f"{v} is None", mode="eval").body)[0], canon(ast.parse(f"{v} is False", mode="eval").body)[0], canon(ast.parse(f"{v} is True", mode="eval").body)[0]
+    rows = {"None": {KN: True, KF: False, KT: False}, "False": {KN: False, KF: True, KT: False}, "True": {KN: False, KF: False, KT: True}, "other": {KN: False, KF: False, KT: False}}
+    want = {"None": [], "False": [], "True": [f"buf.append({k})"], "other": [f"buf.append(f'{{{k}}}={{{v}}}')"]}
+    facts = []
+    ok = True
+    for name, val in rows.items():
+        start = cfg.succ(head, "T")
+        if not start:
+            return False, "no loop body"
+        # walk one iteration
+        acts: list[str] = []
+        n = start[0]
+        seen = set()
+        unknown = False
+        while n is not head and n.id not in seen and n.ast is not None and id(n.ast) in body_ids:
+            seen.add(n.id)
+            if n.kind == "test":
+                kk, pp = canon(n.ast)
+                if kk not in val:
+                    unknown = True
+                    break
+                nxt = cfg.succ(n, "T" if val[kk] == pp else "F")
+            else:
+                if isinstance(n.ast, ast.Expr) and isinstance(n.ast.value, ast.Call) and norm(n.ast.value.func) == "buf.append":
+                    acts.append(norm(n.ast.value))
+                nxt = [s for s, l in n.succs if l != "exc"]
+            if not nxt:
+                break
+            n = nxt[0]
+        if unknown or acts != want[name]:
+            ok = False
+        facts.append(f"{name}: {acts}")
+    return ok, "; ".join(facts)
